@@ -576,8 +576,17 @@ class FromKafkaBatched(Source):
                 else:
                     new_partitions = len(kafka_cluster_metadata.topics[self.topic].partitions)
                 if new_partitions > self.npartitions:
-                    self.positions.extend([-1001] * (new_partitions - self.npartitions))
-                    self.npartitions = new_partitions
+                    # a partition that is new to this process may already have offsets
+                    # committed by the consumer group (e.g. before a restart)
+                    new_tps = [ck.TopicPartition(self.topic, partition)
+                               for partition in range(self.npartitions, new_partitions)]
+                    try:
+                        committed = self.consumer.committed(new_tps, timeout=1)
+                    except ck.KafkaException:
+                        pass  # try again in the next cycle
+                    else:
+                        self.positions.extend(tp.offset for tp in committed)
+                        self.npartitions = new_partitions
 
             for partition in range(self.npartitions):
                 tp = ck.TopicPartition(self.topic, partition, 0)
